@@ -87,7 +87,13 @@ func (b *Builder) cache(mKey interface{}, cachedMocker Mocker) {
 // Struct 指定结构体实例
 // 比如需要 mock 结构体函数 (*conn).Write(b []byte)，则 name="conn"
 func (b *Builder) Struct(instance interface{}) *CachedMethodMocker {
-	mKey := reflect.ValueOf(instance).Type().String()
+	// Type.String() 只包含包名(路径最后一段), 不同包下可能存在包名和类型名都相同的结构体, key 需要带上完整的包路径
+	typ := reflect.ValueOf(instance).Type()
+	elem := typ
+	for elem.Kind() == reflect.Ptr {
+		elem = elem.Elem()
+	}
+	mKey := elem.PkgPath() + "@" + typ.String()
 	if mocker, ok := b.mockers[mKey]; ok && !mocker.Canceled() {
 		b.reset2CurPkg()
 		return mocker.(*CachedMethodMocker)
